@@ -88,7 +88,10 @@ func (pl *Playlist) M3u8(token string) ([]byte, error) {
 		}
 	}
 
-	return w.Bytes(), nil
+	// w 在返回前就被(defer)放回缓冲池，必须返回拷贝，否则并发调用者会拿到彼此的内容
+	out := make([]byte, w.Len())
+	copy(out, w.Bytes())
+	return out, nil
 }
 
 // Segment 获取 segment
